@@ -148,7 +148,12 @@ class NetCDFWrite(IOWrite):
                     # given role.
                     return ncdim
 
-        if base in existing_names:
+        if base in existing_names and not g["dry_run"]:
+            # (In the dry run of append mode every construct comes
+            # from the dataset and asks for the name that it has
+            # there: that name is registered as it is, whether or not
+            # a variable or dimension read earlier has the same name,
+            # so that the names registered are those of the dataset.)
             counter = g.setdefault("count_" + base, 1)
 
             ncvar = f"{base}_{counter}"
